@@ -3,8 +3,11 @@ From Bfe Require Import lib.Val lib.Bytes model.BasicRoute.
 Import ListNotations.
 Open Scope Z_scope.
 
-(* input : [ rules queries ]   rules = [[VL hosts; VL paths; VB cluster] ...]   queries = [[VB host; VB path] ...]
-   output: VErr 1 when the loader rejects the rule set, else [ r ... ] with r = [VB cluster] (found) or [] (miss) *)
+(* input : [ VZ mode; rules; queries ]   rules = [[VL hosts; VL paths; VB cluster] ...]   queries = [[VB host; VB path] ...]
+     mode 0: the rules go through the loader (route_rule_conf.RouteConfLoad: checks + Insert)
+     mode 1: NewBasicRouteRuleTree + BasicRouteRuleTree.Insert per rule, WITHOUT the loader's checks
+   output: VErr 1 when the loader rejects the rule set (mode 0), VErr 2 when an Insert fails (mode 1),
+           else [ r ... ] with r = [VB cluster] (found) or [] (miss) *)
 Definition dec_rule (v : val) : option rule :=
   match v with
   | VL [hs; ps; VB c] =>
@@ -17,34 +20,40 @@ Definition dec_list {A} (f : val -> option A) (v : val) : option (list A) :=
   match v with VL l => all_some (map f l) | _ => None end.
 Definition enc_res (r : option bytes) : val := match r with Some c => VL [VB c] | None => VL [] end.
 
-Definition dec_C11 (i : val) : option (list rule * list (bytes * bytes)) :=
+Definition dec_C11 (i : val) : option (bool * list rule * list (bytes * bytes)) :=
   match i with
-  | VL [rs; qs] =>
+  | VL [VZ m; rs; qs] =>
     match dec_list dec_rule rs, dec_list dec_pair qs with
-    | Some rules, Some queries => Some (rules, queries)
+    | Some rules, Some queries =>
+      if m =? 0 then Some (false, rules, queries) else if m =? 1 then Some (true, rules, queries) else None
     | _, _ => None
     end
   | _ => None
   end.
+Definition wf_C11 (i : val) : bool := match dec_C11 i with Some _ => true | None => false end.
+Definition enc_answers (f : bytes -> bytes -> option bytes) (queries : list (bytes * bytes)) : val :=
+  VL (map (fun q => enc_res (f (fst q) (snd q))) queries).
 Definition run_C11 (i : val) : val :=
   match dec_C11 i with
-  | Some (rules, queries) =>
-    match load_rules rules with
-    | Some t => VL (map (fun q => enc_res (tree_get t (fst q) (snd q))) queries)
-    | None => VErr 1
-    end
+  | Some (direct, rules, queries) =>
+    if direct then
+      match insert_all rules with Some t => enc_answers (tree_get t) queries | None => VErr 2 end
+    else
+      match load_rules rules with Some t => enc_answers (tree_get t) queries | None => VErr 1 end
   | None => VErr 0
   end.
 Definition agree_C11 (i o : val) : bool := val_eqb (run_C11 i) o.
-(* the property: for an accepted rule set every observed answer is the documented choice
+(* the property: for a rule set that passes the loader's checks every observed answer is the documented choice
    (host class exact > single-label wildcard > any, no cross-class fallback; path exact > longest prefix > any),
-   computed from the rule list alone.  Rejected rule sets carry no obligation on lookups. *)
+   computed from the rule list alone.  Rejected rule sets (observation = error) and, in direct mode, rule sets the
+   loader's checks would refuse carry no obligation on lookups. *)
 Definition prop_C11 (i o : val) : bool :=
   match dec_C11 i with
-  | Some (rules, queries) =>
+  | Some (direct, rules, queries) =>
     match o with
     | VL [VZ (-1); VZ _] => true
-    | _ => val_eqb o (VL (map (fun q => enc_res (doc_route rules (fst q) (snd q))) queries))
+    | _ => if direct && negb (forallb check_rule rules) then true
+           else val_eqb o (enc_answers (doc_route rules) queries)
     end
   | None => false
   end.
